@@ -145,6 +145,27 @@ func eMessageBody(m *eMsg) []byte {
 	return e.b
 }
 
+// eFacts: what the encoder laid out, for comparison with what Info reports.
+type eChunkFact struct {
+	start, length, startT, endT, idxLen, compressedN, uncompressN uint64
+	comp                                                        string
+	idxOff                                                      map[uint16]uint64
+}
+type eAttFact struct {
+	off, length uint64
+	a           *vAtt
+}
+type eMdFact struct {
+	off, length uint64
+	name        string
+}
+
+var eLast struct {
+	chunks []eChunkFact
+	atts   []eAttFact
+	mds    []eMdFact
+}
+
 // vSpecEncode lays the content out as the layout says and returns the file.
 func vSpecEncode(c *eContent, l *eLayout) []byte {
 	x := &eEnc{l: l}
@@ -506,6 +527,17 @@ func vSpecEncode(c *eContent, l *eLayout) []byte {
 		o.u32(crc)
 	}
 	o.b = append(o.b, sMagic...)
+	eLast.chunks, eLast.atts, eLast.mds = nil, nil, nil
+	for i := range chunkInfos {
+		ci := &chunkInfos[i]
+		eLast.chunks = append(eLast.chunks, eChunkFact{ci.start, ci.length, ci.startT, ci.endT, ci.idxLen, ci.compressedN, ci.uncompressN, ci.comp, ci.idxOff})
+	}
+	for _, ai := range attInfos {
+		eLast.atts = append(eLast.atts, eAttFact{ai.off, ai.length, ai.a})
+	}
+	for _, m := range mdInfos {
+		eLast.mds = append(eLast.mds, eMdFact{m.off, m.length, m.name})
+	}
 	return o.b
 }
 
